@@ -42,6 +42,7 @@ class Ctx:
         os.makedirs(self.scratch, exist_ok=True)
         atexit.register(lambda: shutil.rmtree(self.scratch, ignore_errors=True))
         self.violations = []      # (replay_path, nofail)
+        self.reported = {}        # key -> occurrences (one VIOLATION line and replay per key)
         self.known = []           # text lines
         self.notes = []
         self.cov = {}
@@ -347,6 +348,10 @@ def violation(ctx, key, replay_obj, nofail=False):
                 ctx.known.append(line)
                 print(line)
             return
+    if key in ctx.reported:
+        ctx.reported[key] += 1
+        return
+    ctx.reported[key] = 1
     path = write_replay(ctx, re.sub(r"[^A-Za-z0-9_.-]", "_", key)[:60], dict(replay_obj, key=key, no_failing_input_found=nofail))
     ctx.violations.append((path, nofail))
     print("VIOLATION property=%s replay=%s%s" % (ctx.prop, path, " no-failing-input-found" if nofail else ""))
